@@ -841,10 +841,34 @@ BINARY(addq,paddq,0xd4)
 BINARY(subq,psubq,0xfb)
 #endif
 
+/* Only the low 1 << loop_shift elements of the source belong to the current
+ * iteration; what the register holds above them (a splatted constant, the
+ * result of arithmetic on one) must not be accumulated.  Returns the register
+ * to add: the source itself, or a scratch copy with the rest cleared. */
+static int
+mmx_acc_source (OrcCompiler *p, int src, int size)
+{
+  const int bytes = size << p->loop_shift;
+  int tmp;
+
+#ifndef MMX
+  if (bytes >= 16) return src;
+  tmp = orc_compiler_get_temp_reg (p);
+  orc_mmx_emit_movq (p, src, tmp);
+  orc_mmx_emit_pslldq_imm (p, 16 - bytes, tmp);
+#else
+  if (bytes >= 8) return src;
+  tmp = orc_compiler_get_temp_reg (p);
+  orc_mmx_emit_movq (p, src, tmp);
+  orc_mmx_emit_psllq_imm (p, 8 * (8 - bytes), tmp);
+#endif
+  return tmp;
+}
+
 static void
 mmx_rule_accw (OrcCompiler *p, void *user, OrcInstruction *insn)
 {
-  const int src = p->vars[insn->src_args[0]].alloc;
+  const int src = mmx_acc_source (p, p->vars[insn->src_args[0]].alloc, 2);
   const int dest = p->vars[insn->dest_args[0]].alloc;
 
   orc_mmx_emit_paddw (p, src, dest);
@@ -853,14 +877,9 @@ mmx_rule_accw (OrcCompiler *p, void *user, OrcInstruction *insn)
 static void
 mmx_rule_accl (OrcCompiler *p, void *user, OrcInstruction *insn)
 {
-  const int src = p->vars[insn->src_args[0]].alloc;
+  const int src = mmx_acc_source (p, p->vars[insn->src_args[0]].alloc, 4);
   const int dest = p->vars[insn->dest_args[0]].alloc;
 
-#ifndef MMX
-  if (p->loop_shift == 0) {
-    orc_mmx_emit_pslldq_imm (p, 12, src);
-  }
-#endif
   orc_mmx_emit_paddd (p, src, dest);
 }
 
